@@ -24,6 +24,7 @@ def consts_under(t, ops):
 
 
 def run(ck):
+    ck.rule('C14.f', 'sink_put_chunk, through which the *_to_sink encoders emit, offers exactly the octets of the region it was given, in order, retrying in place (C17.a-d re-evaluated)')
     ck.rule('C14.e', 'the buffer and chunk-list source drivers the octet-wise decoder reads through deliver every unread octet in order and report the end of data only when no chunk is left (C17.g, C17.h re-evaluated): buffer decoder and source decoder see the same octets')
     ck.rule('C14.a', 'varint_decode: every octet read buf[offset+i] is proved inside the buffer (offset+i+1 <= used/size) by the path guards; failing paths leave the buffer untouched; offset advances by exactly the consumed count')
     ck.rule('C14.b', 'sibling agreement: buffer decoder and source decoder use the same data mask, shift step, terminator test, bound and error code; encoder and length query the same shift step / stop test / counting')
@@ -52,6 +53,8 @@ def run(ck):
     rule_c(ck, u)
     rule_d(ck, u)
     from .common import reevaluate
+    reevaluate(ck, 'C14.f', 'c17', lambda r, k: r in ('C17.a', 'C17.b', 'C17.c', 'C17.d') and k.startswith(('sink_put_chunk', 'sink_adapt')),
+               'the *_to_sink encoders hand their scratch buffer to sink_put_chunk: exactly its used octets reach the sink, from its start, whatever the driver answers')
     reevaluate(ck, 'C14.e', 'c17', lambda r, k: r == 'C17.g' or (r == 'C17.h'),
                'the source decoder reads its octets through the buffer / chunk-list drivers: they deliver the unread octets of the buffer, of every chunk in turn, and report the end only when none is left')
 
